@@ -161,7 +161,9 @@ func parseHeaders(h *protocol.ResponseHeader, buf []byte) (int, error) {
 					if ext.HasHeaderValue(s.Value, bytestr.StrClose) {
 						h.SetConnectionClose(true)
 					} else {
-						h.SetConnectionClose(false)
+						// Several Connection lines form one list (RFC 9110 5.3): a line without
+						// "close" does not take back the "close" of an earlier line. The flag
+						// starts out false, the header is reset before it is parsed.
 						h.AddArgBytes(s.Key, s.Value, protocol.ArgsHasValue)
 					}
 					continue
